@@ -824,14 +824,14 @@ def all_texts(max_len):
 # --------------------------------------------------------------------------- floors (deterministic parts)
 
 FLOORS = {
-    'quick': {'depth1': 2300, 'depth2-one-inner': 60000, 'depth2-two-inner': 30000,
-              'function-call': 4000, 'function-as-operand': 1000, 'oracle:determinate': 60000,
-              'oracle:error-value': 3000, 'rendering:min': 100000, 'rendering:full': 100000,
-              'text-literal': 1200, 'number-literal': 80, 'error-literal': 56, 'route:workbook': 1500,
+    'quick': {'depth1': 2380, 'depth2-one-inner': 43000, 'depth2-two-inner': 32000,
+              'function-call': 4100, 'function-as-operand': 1100, 'oracle:determinate': 70000,
+              'oracle:error-value': 2800, 'rendering:min': 83000, 'rendering:full': 83000,
+              'text-literal': 1300, 'number-literal': 88, 'error-literal': 56, 'route:workbook': 1500,
               'sampled-trees': 400},
-    'thorough': {'depth2-one-inner': 60000, 'depth2-two-inner': 30000, 'depth3-chain': 500000,
-                 'function-call': 4000, 'oracle:determinate': 400000, 'rendering:min': 600000,
-                 'text-literal': 25000, 'route:workbook': 10000, 'sampled-trees': 80000},
+    'thorough': {'depth2-one-inner': 43000, 'depth2-two-inner': 32000, 'depth3-chain': 560000,
+                 'function-call': 4100, 'oracle:determinate': 400000, 'rendering:min': 640000,
+                 'text-literal': 25000, 'route:workbook': 10000, 'sampled-trees': 20000},
 }
 
 
